@@ -256,10 +256,33 @@ class GraphSim:
         w_dnode = 3 if (self.allow_delete and len(g.m.nodes) > 1) else 0
         w_ins = 1 if (self.allow_insert and len(self.graphs) > 1 and g is self.graphs[0]
                       and len(g.m.nodes) < self.max_nodes) else 0
-        k = ch.weighted([w_add, w_link, w_order, w_dlink, w_dlink_absent, w_dnode, w_ins], "step")
+        w_meta = 1 if self.use_meta else 0
+        k = ch.weighted([w_add, w_link, w_order, w_dlink, w_dlink_absent, w_dnode, w_ins, w_meta], "step")
         self.ctx.steps += 1
         return [self.do_add_node, self.do_add_link, self.do_add_order, self.do_delete_link,
-                self.do_delete_absent_link, self.do_delete_node, self.do_insert][k](actor, g)
+                self.do_delete_absent_link, self.do_delete_node, self.do_insert, self.do_edit_meta][k](actor, g)
+
+    def do_edit_meta(self, actor, g):
+        """Edit a node's metadata dictionary in place (through the handle's .metadata or the node data)."""
+        ch = self.ctx.ch
+        idx = self._pick_node(g, actor, "meta-node")
+        key = ch.pick(["k", "name", "né", "extra"], "meta-key")
+        val = ch.pick([1, "v", [1, {"x": None}], {"a": "b"}, None, 2 ** 60, False], "meta-val2")
+        via = ch.draw(2, "meta-via")
+        if via == 0:
+            g.h[self._handle(g, idx)].metadata[key] = val
+        else:
+            # the handle stored by the engine was returned by the API and shares the node's dictionary
+            hnd = g.handles[idx]
+            if hnd.metadata is g.h[hnd].metadata:
+                hnd.metadata[key] = val
+            else:
+                g.h[hnd].metadata[key] = val
+                self.ctx.probe("handle_metadata_not_shared")
+        g.m.nodes[idx].metadata[key] = val
+        self.ctx.probe("metadata_edited_in_place")
+        self.ctx.ev(actor, "metadata[k]=v", {"g": g.name, "idx": idx, "key": key})
+        return ("edit_meta", idx)
 
     def do_add_node(self, actor, g):
         ch = self.ctx.ch
